@@ -664,6 +664,8 @@ class UnytDomain:
     # ---- names ---------------------------------------------------------------------------
     def global_override(self, it, modname, name):
         fq = modname + "." + name
+        if modname in MODULE_ATTR_HOOKS:
+            return MODULE_ATTR_HOOKS[modname](it, name)
         if modname == "unyt.dimensions":
             if name in BASE_DIMS:
                 return SDim.base(name)
@@ -914,6 +916,11 @@ class UnytDomain:
                 u.fields["base_value"] = Fraction(1) if name == "delta_degC" else Fraction(5, 9)
             setattr(it, key, u)
         return getattr(it, key)
+
+
+# module name -> f(it, attribute): modules whose namespace is filled at import time by code that
+# is not executed here (unyt.physical_constants); registered by the contracts that need them
+MODULE_ATTR_HOOKS = {}
 
 
 class SNewVersion(SV):
